@@ -8,6 +8,10 @@ CHECKS = {
     text="TLC model-checks the mirrored character state machine (spec/YPathParser.tla, one arm per elif of _parse_path) for NoCrash over every token sequence up to the bound and in bracket/collector/search/keyword/quote/regex contexts; every enumerated text is replayed into the real YAMLPath (escaped, unescaped, str, forced separators); seeded random and Unicode texts are recorded from the real parser incl. per-character internal state (sys.settrace) and validated by TLC folding the same step function.",
     note="Trusted: TLC; the harness' exception classification. The model comparison covers printable ASCII; Unicode texts are judged on exception class only. Bounds: quick = 3 tokens over 28 tokens + 4 over a 16-token core + [..] context; thorough = 4 tokens + 6 over a 10-token core + seven contexts.",
     technique="TLA+ step-machine model checked by TLC + S->C replay + C->S per-character trace validation", ref="4/C14"),
+ "C08": dict(
+    text="TLC enumerates every well-formed segment sequence of the MC_RoundTrip grammar (all segment kinds; key/term text over letters, digits and every escapable character), writes it with the specification's Write operator in both notations and both key styles, and checks the round-trip theorems (text->segments, canonical re-parse in either notation, fixed point, equality) on the mirrored parser and stringifier; each emitted case is replayed into the real YAMLPath where the same relations plus append/pop are evaluated on the real objects; seeded random longer sequences go through Batch_RoundTrip.",
+    note="Trusted: TLC; Write as the reading of the documented notation; the segment projection of harness/pathobs.py. Bounds: quick = 2 segments (first over the full vocabulary of ~750 segments) + collector chains of 4 + 1500 random sequences of 2-6; thorough = 3 segments + 20000 random. Two input classes are known findings (F-C08-1, F-C08-2).",
+    technique="TLA+ model of writer/parser/stringifier checked by TLC + S->C replay of relations on the real class", ref="4/C08"),
 }
 NA_REASON = "check not built yet in this round (specification family under construction; see DESIGN.md section 9)"
 def main():
